@@ -313,7 +313,11 @@ def _config(ctx, pydrex, case, scratch):
                 ochosen[k] = ("[" + ", ".join(f'"{p.name}"' for p in sub) + "]", list(sub))
             else:
                 ochosen[k] = OUT_VALUES[k][int(rng.integers(len(OUT_VALUES[k])))]
-    has_output = bool(ochosen) or (case["tables"] & 2)
+    if int(case["seed"]) % 6 == 0:
+        ochosen = {}          # the whole [output] table is optional: leave it out altogether
+        has_output = False
+    else:
+        has_output = bool(ochosen) or (case["tables"] & 2)
     if has_output:
         lines.append("[output]")
         for k, (txt, val) in ochosen.items():
